@@ -209,6 +209,11 @@ func RunWaits(r *common.Run) {
 	}
 	r.Mark("case ibb-late-replies")
 	runLateReplies(r)
+	// listener: Accept / Expect waits, also an Expect that has given up before its stream arrives
+	for i, c := range []string{"L,A,O", "L,O,A", "L,E,O", "L,E,X,O,A", "L,A,E,O,O", "L,E,K,O", "L,A,K,O"} {
+		r.Mark("case ibb-listener %d", i)
+		runListener(r, strings.Split(c, ","), "listener-corpus")
+	}
 }
 
 // Run is the C15 runner.
@@ -247,8 +252,8 @@ func Run(r *common.Run) error {
 			case "lsn":
 				ops := strings.Split(f[2], ",")
 				for i := range ops {
-					if ops[i][0] == 'O' {
-						ops[i] = "O"
+					if ops[i][0] == 'O' || ops[i][0] == 'E' {
+						ops[i] = ops[i][:1]
 					}
 				}
 				runListener(r, ops, "replay")
@@ -336,7 +341,8 @@ func Run(r *common.Run) error {
 		}
 	}
 	// listener life cycle x incoming open requests
-	for i, c := range []string{"O", "L,A,O", "L,O,A", "L,K,O", "L,A,K,O", "L,O,A,K,O", "L,K,L,O,A", "L,K,A,O,L,A,O", "L,A,A,O,O,K,O", "L,O,A,O,A,K,A,O"} {
+	for i, c := range []string{"O", "L,A,O", "L,O,A", "L,K,O", "L,A,K,O", "L,O,A,K,O", "L,K,L,O,A", "L,K,A,O,L,A,O", "L,A,A,O,O,K,O", "L,O,A,O,A,K,A,O",
+		"L,E,O", "L,E,X,O,A", "L,A,E,O,O", "L,E,K,O", "L,E,X,E,O", "L,E,E,O", "K,E", "L,K,E,L,E,X,O,A"} {
 		r.Mark("case listener %d", i)
 		runListener(r, strings.Split(c, ","), "listener-corpus")
 	}
@@ -345,7 +351,7 @@ func Run(r *common.Run) error {
 		n := 2 + r.Rnd.Intn(9)
 		ops := make([]string, n)
 		for k := range ops {
-			ops[k] = []string{"L", "L", "K", "A", "A", "O", "O", "O"}[r.Rnd.Intn(8)]
+			ops[k] = []string{"L", "L", "K", "A", "A", "O", "O", "O", "E", "E", "X"}[r.Rnd.Intn(11)]
 		}
 		runListener(r, ops, "listener-random")
 	}
